@@ -155,7 +155,14 @@ func init() {
 							}
 						}
 						if gen && spec {
-							ok = true
+							// and it is this value that is tested against 0 / used as the token count
+							for _, r := range refsOf(phi) {
+								if b, isB := r.(*ssa.BinOp); isB && isComparison(b.Op) {
+									if z, isZ := constInt(b.Y); isZ && z == 0 {
+										ok = true
+									}
+								}
+							}
 						}
 					})
 					c.Check(ok, fnKey(f)+" / token-count", f.Pos(), "token count = specificItems[arg] when present, else the rule threshold")
